@@ -12,6 +12,8 @@ fn main() {
         "mac" => vharness::macdrv::vh_mac(&a),
         "macreplay" => vharness::macdrv::vh_macreplay(&a),
         "macmc" => vharness::macdrv::vh_macmc(&a),
+        "nbwalk" => vharness::macdrv::vh_nbwalk(&a),
+        "awalk" => vharness::macdrv::vh_awalk(&a),
         "cmds_items" => vharness::cmdrec::cmds_items(&a),
         "cmds_fields" => vharness::cmdrec::cmds_fields(&a),
         "idtext" => vharness::cmdrec::idtext(&a),
